@@ -556,6 +556,20 @@ func ruleR02_2(c *Ctx) {
 	for _, r := range callsIn(f, "(*rt/middleware.Context).Respond") {
 		_, args := callArgs(r.Common())
 		okE, _ := allOrigins(args[4], oIsValue(zerr))
+		if !okE && zerr != nil && guardedBy(r, z, factNil(vIs(zerr), true)) {
+			// an extra fail-closed exit taken although Authorize reported no error: it refuses with a freshly built
+			// authentication error and does not reach the next handler
+			if fresh, _ := allOrigins(args[4], oCall(-1, "github.com/go-openapi/errors.Unauthenticated", "github.com/go-openapi/errors.New")); fresh {
+				stops := true
+				for _, n := range nexts {
+					if pathExists(f, r, n, nil, nil) {
+						stops = false
+					}
+				}
+				c.obI("R02.2", r, "extra-refusal-fails-closed", stops, "an additional refusal (beyond Authorize's own error) answers with an authentication error and ends the request", "the next handler is reachable after the refusal was written")
+				continue
+			}
+		}
 		c.obI("R02.2", r, "refusal-responds-with-error", okE && guardedBy(r, z, factNil(vIs(zerr), false)), "a refusal is answered with the error Authorize returned", "Respond is not fed the authorization error")
 	}
 	// binding code is not reachable from the wrapper other than through next
